@@ -92,4 +92,19 @@ def Zone.newYorkFall2024 : Zone := Zone.oneTransition (-14400) (-18000) 17306136
 /-- Australia/Lord_Howe around 2024-04-07: LHDT (+11 h) until 15:00:00Z Apr 6, then LHST (+10:30) -/
 def Zone.lordHoweApr2024 : Zone := Zone.ofTransitions 39600 [(1712415600, 37800)]
 
+/-- `timeRangeOfTimestamp` / `segment.initDataFamily`'s range in the zone -/
+def timeRangeOfTimestampZ (z : Zone) (c : Calc) (t : Int) : TimeRange :=
+  { start := calcFamilyTimeZ z c t, stop := calcFamilyEndTimeZ z c (calcFamilyTimeZ z c t) }
+
+/-- `intervalSegment.GetDataFamilies(q)` → `segment.GetDataFamilies` (current code: the query range
+is truncated with `CalcFamilyTime`) with `time.Local` = the zone; same shape as `getDataFamilies` -/
+def getDataFamiliesZ (z : Zone) (c : Calc) (q : TimeRange) (ts : List Int) : List Int :=
+  let segQ : TimeRange := { start := calcSegmentTimeZ z c q.start, stop := q.stop }
+  let fq := segQ.intersect q
+  (ts.filter fun t =>
+      segQ.contains (calcSegmentTimeZ z c t) &&
+        (TimeRange.mk (calcFamilyTimeZ z c fq.start) (calcFamilyTimeZ z c fq.stop)).overlap
+          (timeRangeOfTimestampZ z c t)).map
+    fun t => calcFamilyTimeZ z c t
+
 end LinVerif.Interval
